@@ -24,12 +24,12 @@ import (
 
 type c36dCase struct {
 	Segs       []VerifSeg `json:"segs"`
-	Cache      bool       `json:"cache"`       // discovery cache enabled (TTL 60 s)
-	MaxEntries int        `json:"max_entries"` // cache MaxEntries (0 = unlimited)
-	Manifest   bool       `json:"manifest"`    // manifest lister enabled; manifest.json built by the real builder
-	TimeIndex  bool       `json:"time_index"`  // time index reader enabled (for the lister, and for the manifest build)
+	Cache      bool       `json:"cache"`                // discovery cache enabled (TTL 60 s)
+	MaxEntries int        `json:"max_entries"`          // cache MaxEntries (0 = unlimited)
+	Manifest   bool       `json:"manifest"`             // manifest lister enabled; manifest.json built by the real builder
+	TimeIndex  bool       `json:"time_index"`           // time index reader enabled (for the lister, and for the manifest build)
 	RealSleep  bool       `json:"real_sleep,omitempty"` // TTL 1 s and a real 1.1 s sleep instead of rewinding the expiry
-	Discovery  bool       `json:"discovery"`   // marks the case kind for --replay
+	Discovery  bool       `json:"discovery"`            // marks the case kind for --replay
 }
 
 var c36dTopics = []string{"alpha", "beta"}
@@ -91,6 +91,15 @@ func c36dRun(cs c36dCase) ([]c36dCall, *VerifS3, string, error) {
 	f := VerifNewS3(cs.Segs)
 	ctx := context.Background()
 	cfg := c36dConfig(cs, f.URL())
+	// the .kfst time index objects are written by the real TimeIndexBuilder
+	if err := VerifBuildTimeIndex(ctx, cfg, cs.Segs); err != nil {
+		return nil, f, "", fmt.Errorf("time index build: %w", err)
+	}
+	for _, sg := range cs.Segs {
+		if _, ok := f.Object(VerifKey(sg, ".kfst")); ok != (sg.Footer && sg.Listed()) {
+			return nil, f, "", fmt.Errorf("time index object for %s present=%v, expected %v", VerifKey(sg, ".kfs"), ok, sg.Footer && sg.Listed())
+		}
+	}
 	if cs.Manifest {
 		// the manifest is produced the way cmd/backfill does: a lister without manifest, then the real builder
 		bcfg := cfg
@@ -106,6 +115,13 @@ func c36dRun(cs c36dCase) ([]c36dCall, *VerifS3, string, error) {
 		}
 		if err := b.Build(ctx); err != nil {
 			return nil, f, "", fmt.Errorf("manifest build: %w", err)
+		}
+	}
+	if cs.Manifest { // the manifest lister silently falls back to the S3 listing when it cannot use the manifest
+		body, ok := f.Object("ns/manifest.json")
+		entries, perr := parseManifest(body)
+		if !ok || perr != nil || len(entries) != len(VerifSorted(cs.Segs)) {
+			return nil, f, "", fmt.Errorf("manifest object unusable: present=%v err=%v entries=%d", ok, perr, len(entries))
 		}
 	}
 	l, err := New(cfg)
@@ -159,6 +175,16 @@ func c36dOracle(cs c36dCase, calls []c36dCall, f *VerifS3) (string, string) {
 			if got, first := c36dFields(ref), c36dFields(calls[0].refs[i]); got != first {
 				return "listing-changes-between-calls", fmt.Sprintf("call %d (expired=%v) segment %d: %s; the first call returned %s", ci, call.expired, i, got, first)
 			}
+			if cs.TimeIndex && sg.Footer { // the footer written by the builder must be read back, and be tight
+				mnT, mxT := VerifMinMax(sg.Tss)
+				_, mxO := VerifMinMax(sg.Offs)
+				if ref.MinTimestamp == nil || ref.MaxTimestamp == nil || *ref.MinTimestamp != mnT || *ref.MaxTimestamp != mxT {
+					return "time-index-footer-not-min-max", fmt.Sprintf("call %d: segment %s/%d base %d has record timestamps %v (min %d, max %d) but statistics %s", ci, ref.Topic, ref.Partition, ref.BaseOffset, sg.Tss, mnT, mxT, c36dFields(ref))
+				}
+				if ref.MaxOffset == nil || (i+1 == len(refs) || refs[i+1].Topic != ref.Topic || refs[i+1].Partition != ref.Partition) && *ref.MaxOffset != mxO {
+					return "time-index-footer-not-min-max", fmt.Sprintf("call %d: last segment %s/%d base %d holds max offset %d but statistics %s", ci, ref.Topic, ref.Partition, ref.BaseOffset, mxO, c36dFields(ref))
+				}
+			}
 			for k := range sg.Offs {
 				o, ts := sg.Offs[k], sg.Tss[k]
 				if (ref.MinOffset != nil && o < *ref.MinOffset) || (ref.MaxOffset != nil && o > *ref.MaxOffset) {
@@ -194,9 +220,22 @@ func c36dGen(r *vRand) c36dCase {
 					if r.Chance(20) {
 						next += int64(r.Range(1, 3))
 					}
-					clock += int64(r.Range(-3, 9))
+					ts := clock
+					switch r.Intn(8) {
+					case 0: // late event: far behind its neighbours (the clock does not move)
+						ts = clock - int64(r.Range(10, 40))
+					case 1: // producer clock skew ahead
+						ts = clock + int64(r.Range(10, 40))
+					case 2: // equal timestamps
+					case 3:
+						clock -= int64(r.Range(1, 6))
+						ts = clock
+					default:
+						clock += int64(r.Range(1, 9))
+						ts = clock
+					}
 					sg.Offs = append(sg.Offs, next)
-					sg.Tss = append(sg.Tss, clock)
+					sg.Tss = append(sg.Tss, ts)
 					next++
 				}
 				if r.Chance(15) {
@@ -236,15 +275,13 @@ func c36dCoq(cs c36dCase, calls []c36dCall) string {
 	raws := VerifSorted(cs.Segs)
 	rs := make([]string, len(raws))
 	for i, sg := range raws {
-		footer := "None"
-		if cs.TimeIndex && sg.Footer && len(sg.Offs) > 0 { // the footer is only read when the time index is enabled
-			mnT, mxT := VerifMinMax(sg.Tss)
-			mnO, mxO := VerifMinMax(sg.Offs)
-			footer = fmt.Sprintf("(Some (%s, %s, %s, %s))", cqZ(mnT), cqZ(mxT), cqZ(mnO), cqZ(mxO))
-		}
 		recs := make([]string, len(sg.Offs))
 		for k := range sg.Offs {
 			recs[k] = fmt.Sprintf("mkRec %s %s", cqZ(sg.Offs[k]), cqZ(sg.Tss[k]))
+		}
+		footer := "None"
+		if cs.TimeIndex && sg.Footer { // written by the real TimeIndexBuilder = the model's scan_segment; only read when the time index is enabled
+			footer = "(scan_segment " + cqList(recs) + ")"
 		}
 		rs[i] = fmt.Sprintf("mkRaw %s %d %s %s %s", cqZ(c36dTopicIdx(sg.Topic)), sg.Part, cqZ(sg.Base), footer, cqList(recs))
 	}
@@ -301,8 +338,8 @@ func TestVerifC36Discovery(t *testing.T) {
 		}
 	} else {
 		base := []VerifSeg{
-			{Topic: "alpha", Part: 0, Base: 0, Offs: []int64{0, 1, 2}, Tss: []int64{10, 30, 20}, Footer: true, Complete: true},
-			{Topic: "alpha", Part: 0, Base: 3, Offs: []int64{3, 5}, Tss: []int64{25, 40}, Footer: false, Complete: true},
+			{Topic: "alpha", Part: 0, Base: 0, Offs: []int64{0, 1, 2, 3}, Tss: []int64{20, 30, 10, 25}, Footer: true, Complete: true},
+			{Topic: "alpha", Part: 0, Base: 4, Offs: []int64{4, 5}, Tss: []int64{25, 40}, Footer: false, Complete: true},
 			{Topic: "alpha", Part: 0, Base: 6, Offs: []int64{6, 7}, Tss: []int64{50, 70}, Footer: true, Complete: true},
 			{Topic: "alpha", Part: 1, Base: 0, Offs: []int64{0}, Tss: []int64{5}, Footer: true, Complete: false}}
 		runOne(c36dCase{Discovery: true, Segs: base, TimeIndex: true})
